@@ -35,22 +35,8 @@ def repo_dir():
 
 
 def load_known():
-    """Known findings of this property: known_findings.f.jsonl first, then the shared file."""
-    out = []
-    seen = set()
-    for name in ("known_findings.f.jsonl", "known_findings.jsonl"):
-        p = os.path.join(C.VERIF, name)
-        if not os.path.exists(p):
-            continue
-        for line in open(p):
-            line = line.strip()
-            if not line or line.startswith("#"):
-                continue
-            j = json.loads(line)
-            if j.get("property") == PROP and not j.get("fixed") and j.get("id") not in seen:
-                seen.add(j.get("id"))
-                out.append(j)
-    return out
+    """Known (not yet repaired) findings of this property, from known_findings.jsonl."""
+    return C.load_known(PROP)
 
 
 def build_model(gen_text):
@@ -207,15 +193,9 @@ def json_encodable(v):
 def class_of_wrapper(fname, args, direct):
     """Known classes for a wrapper case; args are parsed values (receiver first)."""
     base = fname.split(".")[-1]
-    if base == "repeat" and len(args) == 2 and args[0][0] in ("s", "b", "U") and args[1][0] in ("i", "y"):
-        n, count = len(args[0][1]), args[1][1]
-        if count < 0 or (count > 1 and n * count >= 2 ** 40):
-            return "repeat-count-panics"
     if base in ("contains_rune", "index_rune") and len(args) == 2 and args[1][0] in ("s", "b", "U"):
         if any(c >= 0x80 for c in args[1][1]):
             return "rune-argument-not-ascii"
-    if fname == "math.abs" and len(args) == 1 and args[0] == ("f", "8000000000000000"):
-        return "abs-negative-zero"
     return None
 
 
@@ -1150,6 +1130,8 @@ def _body(res, quick, obs, model, records, proved, repo):
         "JSON is modelled at tree level: the text produced by encoding/json parses back to the same tree (checked by the round trip "
         "on the real code and by a strict Python referee on texts)",
         "map keys in JSON cases are valid UTF-8 and distinct",
+        "strings.repeat / bytes.repeat / byte_slice.repeat refuse results above maxRepeatLen (2^30 bytes) although Go could "
+        "allocate some of them; such sizes are not exercised (the generated counts are small, negative or overflowing)",
         "filepath.abs, filepath.walk_dir, math.sum, bytes.clone/equals are not wrappers of one standard-library function and are "
         "outside the property; math.abs/ceil/floor are compared with Go on float arguments only",
     ]
